@@ -103,6 +103,11 @@ func makeBody(serial int, key, class string, size int) []byte {
 	if size <= 0 {
 		return nil
 	}
+	if class == "fixed" {
+		// content depends on the key only (differential probes compare encoded lengths)
+		serial = 0
+		class = "text"
+	}
 	head := fmt.Sprintf("SIM1|%d|%s|%s|%d|\n", serial, key, class, size)
 	out := make([]byte, 0, size)
 	out = append(out, head...)
